@@ -23,11 +23,28 @@
 //   P4  use_builder == !no_builder
 //
 // The layout of each specifier (where `@` and `=` stand) is concrete per harness; the name
-// characters are symbolic. The version text is concrete, so CrateVers::parse runs on
-// constants and no stub is needed: every counterexample replays natively.
+// characters are symbolic. In the symbolic-name harnesses CrateVers::parse is replaced by
+// its contract (stub_cratevers_parse; deterministic, so counterexamples still replay
+// natively against the real parse).
 
 use super::*;
 use std::str::FromStr;
+
+/// `CrateVers::parse` replaced by its own contract (P2, checked on the real function by the
+/// unit c15_cratevers): `*` => Any, `!` => Never. The four symbolic-name harnesses only ever
+/// pass `*`; any other version text aborts the harness as a tool limit. Without the stub the
+/// version slice has a symbolic offset for CBMC and the semver parser is explored
+/// symbolically (out of memory at 14 GB).
+fn stub_cratevers_parse(s: &str) -> Option<CrateVers> {
+    if s == "!" {
+        Some(CrateVers::Never)
+    } else if s == "*" {
+        Some(CrateVers::Any)
+    } else {
+        kani::assert(false, "[TOOL] CrateVers::parse reached with a version other than `*` / `!`");
+        None
+    }
+}
 
 fn name_start() -> u8 {
     let c: u8 = kani::any();
@@ -71,6 +88,7 @@ fn check_spec(bytes: &[u8], name: &[u8], rename: Option<&[u8]>) {
 
 #[kani::proof]
 #[kani::unwind(12)]
+#[kani::stub(typify_impl::CrateVers::parse, stub_cratevers_parse)]
 fn c15_spec_name1() {
     let b = [name_start(), b'@', b'*'];
     check_spec(&b, &b[..1], None)
@@ -78,6 +96,7 @@ fn c15_spec_name1() {
 
 #[kani::proof]
 #[kani::unwind(12)]
+#[kani::stub(typify_impl::CrateVers::parse, stub_cratevers_parse)]
 fn c15_spec_name2() {
     let b = [name_start(), name_cont(), b'@', b'*'];
     check_spec(&b, &b[..2], None)
@@ -85,6 +104,7 @@ fn c15_spec_name2() {
 
 #[kani::proof]
 #[kani::unwind(12)]
+#[kani::stub(typify_impl::CrateVers::parse, stub_cratevers_parse)]
 fn c15_spec_name3() {
     let b = [name_start(), name_cont(), name_cont(), b'@', b'*'];
     check_spec(&b, &b[..3], None)
@@ -92,6 +112,7 @@ fn c15_spec_name3() {
 
 #[kani::proof]
 #[kani::unwind(12)]
+#[kani::stub(typify_impl::CrateVers::parse, stub_cratevers_parse)]
 fn c15_spec_rename() {
     let b = [name_start(), name_cont(), b'=', name_start(), name_cont(), b'@', b'*'];
     check_spec(&b, &b[3..5], Some(&b[..2]))
